@@ -50,6 +50,7 @@ func (p *ParserPlanner) parseRe(re string) (*regexAST, error) {
 
 var regexParserDesc = lexer.MustSimple([]lexer.SimpleRule{
 	{"OBrackQ", "\\(\\?P<"},
+	{"OBrackN", "\\(\\?"},
 	{"OBrack", "\\("},
 	{"CBrack", "\\)"},
 	{"CCBrack", ">"},
@@ -78,6 +79,7 @@ func (r *regexAST) collectGroupNames(init []string) []string {
 type regexPart struct {
 	SimplePart     string     `@(Char|CCBrack|Ident)+`
 	NamedBrackPart *brackPart `| OBrackQ @@ CBrack`
+	NonCapPart     *regexAST  `| OBrackN @@ CBrack`
 	BrackPart      *regexAST  `| OBrack @@ CBrack`
 }
 
@@ -88,11 +90,18 @@ func (r *regexPart) String() string {
 	if r.NamedBrackPart != nil {
 		return "(" + r.NamedBrackPart.String() + ")"
 	}
+	// `(?:...)`, `(?i)`: sent as written, it opens no capture group
+	if r.NonCapPart != nil {
+		return "(?" + r.NonCapPart.String() + ")"
+	}
 	return "(" + r.BrackPart.String() + ")"
 }
 func (r *regexPart) collectGroupNames(init []string) []string {
 	if r.NamedBrackPart != nil {
 		return r.NamedBrackPart.collectGroupNames(init)
+	}
+	if r.NonCapPart != nil {
+		return r.NonCapPart.collectGroupNames(init)
 	}
 	if r.BrackPart != nil {
 		init = append(init, "")
@@ -107,11 +116,16 @@ type brackPart struct {
 }
 
 func (b *brackPart) String() string {
+	if b.Tail == nil { // (?P<name>)
+		return ""
+	}
 	return b.Tail.String()
 }
 func (b *brackPart) collectGroupNames(init []string) []string {
 	init = append(init, b.Name)
-	init = b.Tail.collectGroupNames(init)
+	if b.Tail != nil {
+		init = b.Tail.collectGroupNames(init)
+	}
 	return init
 }
 
